@@ -298,6 +298,8 @@ func checkC05(p *Program, r *Report) {
 	c05ConverterSiblings(p, r, m)
 	wrapperKindsAgree(p, r, m, "C05.R6")
 	c05NoIdentityShortcut(p, r, m)
+	c05UnaryStaysInteger(p, r, m)
+	accessorKindAgreement(p, r, m, "C05.R8")
 }
 
 // intKindGuards counts dominating edges `isIntKind(x)` (wantTrue) / its negation that control block b.
@@ -922,5 +924,84 @@ func c05NoIdentityShortcut(p *Program, r *Report, m *vmModel) {
 		r.Undecided("C05.R7", "arithmetic handlers", "vm", "no returning block found in the + and * handlers")
 	} else {
 		r.OK("C05.R7", "arithmetic handlers|results are computed", "vm", fmt.Sprintf("%d exits of the + - and * / %% handlers inspected", n))
+	}
+}
+
+// c05UnaryStaysInteger (R9): the unary operators applied to an operand of an integer kind give an integer: evaluated outright for
+// each signed integer kind (the kind tests of the handler decided, everything else both ways), no float result is reachable.
+// Negating the smallest int64 wraps, as in Go; a detour through float64 for "values that do not fit" changes the type of the
+// result and of everything computed from it.
+func c05UnaryStaysInteger(p *Program, r *Report, m *vmModel) {
+	h := m.handlers["expr"]["UnaryExpr"]
+	if h == nil {
+		r.Undecided("C05.R9", "UnaryExpr", "vm", "handler of unary expressions not found")
+		return
+	}
+	floatBox := map[*ssa.Function]bool{}
+	for _, fn := range m.fns {
+		sig := fn.Signature
+		if sig.Recv() == nil && sig.Params().Len() == 1 && sig.Results().Len() == 1 && isReflectValue(sig.Results().At(0).Type()) {
+			if bt, ok := sig.Params().At(0).Type().(*types.Basic); ok && bt.Info()&types.IsFloat != 0 {
+				floatBox[fn] = true
+			}
+		}
+	}
+	// kind atoms grouped by the Kind() call they test
+	atoms := map[ssa.Value][]*ssa.BinOp{}
+	for _, b := range h.Blocks {
+		for _, in := range b.Instrs {
+			if bo, ok := in.(*ssa.BinOp); ok && (bo.Op == token.EQL || bo.Op == token.NEQ) {
+				if kc, ok := bo.X.(*ssa.Call); ok && reflectMethod(kc) == "Kind" {
+					if _, ok := bo.Y.(*ssa.Const); ok {
+						atoms[kc] = append(atoms[kc], bo)
+					}
+				}
+			}
+		}
+	}
+	n := 0
+	var kcs []ssa.Value
+	for kc := range atoms {
+		kcs = append(kcs, kc)
+	}
+	sort.Slice(kcs, func(i, j int) bool { return kcs[i].Pos() < kcs[j].Pos() })
+	for _, kc := range kcs {
+		as := atoms[kc]
+		// only switches that have an arm for a signed integer kind
+		hasInt := false
+		for _, a := range as {
+			if K := a.Y.(*ssa.Const).Int64(); K >= 2 && K <= 6 {
+				hasInt = true
+			}
+		}
+		if !hasInt {
+			continue
+		}
+		n++
+		bad := ""
+		for K := int64(2); K <= 6; K++ {
+			world := map[ssa.Value]bool{}
+			for _, a := range as {
+				eq := a.Y.(*ssa.Const).Int64() == K
+				if a.Op == token.NEQ {
+					eq = !eq
+				}
+				world[a] = eq
+			}
+			// walk from the block of the Kind() call
+			reach := worldReachFrom(h, kc.(*ssa.Call).Block(), world)
+			for b := range reach {
+				for _, in := range b.Instrs {
+					if c, ok := in.(*ssa.Call); ok && floatBox[staticCallee(c)] {
+						bad = fmt.Sprintf("for an operand of kind %s the float result at %s is reachable", kindName(K), p.Pos(c.Pos()))
+					}
+				}
+			}
+		}
+		r.Check(bad == "", "C05.R9", fmt.Sprintf("UnaryExpr|integer operand gives an integer #%d", n), p.Pos(kc.Pos()), "no float result reachable for the signed integer kinds",
+			bad+": the unary operator leaves the integers for some value (negating the smallest int64 must wrap, as in Go)")
+	}
+	if n == 0 {
+		r.Undecided("C05.R9", "UnaryExpr|kind switch", p.Pos(h.Pos()), "no kind switch with an integer arm found in the unary handler")
 	}
 }
